@@ -3,8 +3,9 @@
    (encode.go) and decFnLoad (decode.go) translated from the current source on every run.
    Every theorem quantifies over ALL 2^24 flag vectors (the record has 24 booleans); the proofs
    are exhaustive case analyses driven by the conditions the chains test. *)
-From Coq Require Import Bool.
+From Coq Require Import Bool List String.
 From Verif Require Import Gen.Choice C17.Model C17.Proofs.
+Import ListNotations.
 Open Scope bool_scope.
 
 (* the same mechanism on both sides, for every type and handle *)
@@ -52,6 +53,19 @@ Theorem C17_addr : forall f : flags, type_facts f ->
   end.
 Proof. exact addr_lemma. Qed.
 Print Assumptions C17_addr.
+
+(* the builtin shortcut (struct fields, slice/array elements, map keys/values, top-level values of
+   a builtin type: numbers, string, []byte, time.Time, Raw) is taken on both sides or on neither,
+   in every position, for every type the encoder treats as builtin: the lists translated from
+   encode.base.go and decode.base.go agree.  In particular time.Time under TimeNotBuiltin. *)
+Theorem C17_builtin_positions : forall (t : string) (q : position) (f : flags),
+  is_enc_builtin t = true -> enc_mech_at q (is_enc_builtin t) f = dec_mech_at q (is_dec_builtin t) f.
+Proof. exact builtin_types_lemma. Qed.
+Print Assumptions C17_builtin_positions.
+
+Theorem C17_time_is_builtin : is_enc_builtin "time.Time" = true /\ is_dec_builtin "time.Time" = true.
+Proof. exact time_is_builtin_lemma. Qed.
+Print Assumptions C17_time_is_builtin.
 
 (* if each mechanism's two halves are inverse to each other, a value goes through its custom form
    and back unchanged, for every type and handle: decode undoes with the mechanism encode used *)
